@@ -740,5 +740,8 @@ package stree
 //@   ensures  [C01,C03] members: c != nil && len(c.path) > 0 ==> forall j int :: {callarg(yield, j)} old(ncalls(yield)) <= j && j < ncalls(yield) ==> inK(c.path[len(c.path) - 1], rank(cmp, callarg(yield, j)))
 //@   ensures  [C01,C03] ascending: forall a int, b int :: {callarg(yield, a), callarg(yield, b)} old(ncalls(yield)) <= a && a < b && b < ncalls(yield) ==> rank(cmp, callarg(yield, a)) < rank(cmp, callarg(yield, b))
 //@   ensures  [C01,C03] count: c != nil && len(c.path) > 0 ==> ncalls(yield) - old(ncalls(yield)) <= cntOf(c.path[len(c.path) - 1]) && (ncalls(yield) - old(ncalls(yield)) < cntOf(c.path[len(c.path) - 1]) ==> ncalls(yield) > old(ncalls(yield)) && !callret(yield, ncalls(yield) - 1))
+//@   ensures  [C01,C03] first: c != nil && len(c.path) > 0 && ncalls(yield) > old(ncalls(yield)) ==> forall k int :: {k in c.path[len(c.path) - 1].keys} inK(c.path[len(c.path) - 1], k) ==> k >= rank(cmp, callarg(yield, old(ncalls(yield))))
+//@   ensures  [C01,C03] nogap: c != nil && len(c.path) > 0 ==> forall a int, b int, k int :: {callarg(yield, a), callarg(yield, b), k in c.path[len(c.path) - 1].keys} old(ncalls(yield)) <= a && b == a + 1 && b < ncalls(yield) && inK(c.path[len(c.path) - 1], k) ==> !(rank(cmp, callarg(yield, a)) < k && k < rank(cmp, callarg(yield, b)))
+//@   ensures  [C01,C03] last: c != nil && len(c.path) > 0 && (ncalls(yield) == old(ncalls(yield)) || callret(yield, ncalls(yield) - 1)) ==> forall k int :: {k in c.path[len(c.path) - 1].keys} inK(c.path[len(c.path) - 1], k) ==> ncalls(yield) > old(ncalls(yield)) && k <= rank(cmp, callarg(yield, ncalls(yield) - 1))
 //@   modifies calls(yield)
 //@   call inorder#1: cmp = cmp
